@@ -75,13 +75,13 @@ def exec_part(owner=None):
 
 PROPS_C06 = {'level': 'other', 'rule': 'one obligation per (function, clause of its specification); the functions are the MIR bodies of the current tree; non-trivial = obligation whose function body was symbolically executed along at least one path',
             'explanation': 'E2: symbolic execution of the nightly MIR of the current tree (callees uninterpreted, Vec<ResourceId> as z3 sequences), z3 decides every comparison, cvc5 re-decides the same SMT-LIB text',
-            'functions': [], 'bounds': {'loop unrolling': 3, 'tuple arities': '1..26', 'derive samples': 'mir/derive_samples (9 structs: named, tuple, extra lifetimes, generics + where, bare type-parameter fields, nesting 3)'},
+            'functions': [], 'bounds': {'loop unrolling': '3 (quick) / 5 (thorough)', 'tuple arities': '1..26', 'derive samples': 'mir/derive_samples (9 structs: named, tuple, extra lifetimes, generics + where, bare type-parameter fields, nesting 3)'},
             'assumptions': ['callees that are type parameters or third-party code are uninterpreted: the claim is parametric in them', 'atomic_refcell releases a borrow when its guard is dropped', 'rustc nightly MIR (debug-assertions off) is the semantics of the source'],
             'outside': ['run-time borrow state of a populated World (hashbrown)', 'user-written SystemData impls'],
             'parts': [{'engine': 'mir'}]}
 
 MIR_ASSUME = ['callees that are type parameters or third-party code are uninterpreted (the claim is parametric in them); std collection/iterator contracts are assumed',
-              'rustc nightly MIR (debug-assertions off) is the semantics of the source', 'loops are unrolled 3 times (0..3 items)']
+              'rustc nightly MIR (debug-assertions off) is the semantics of the source', 'loops are unrolled 3 times in the quick tier, 5 times in thorough (0..k items per loop; a function whose path count exceeds the step bound is retried with 3, then 1, and listed in the evidence)']
 MIR_RULE = ('E2 obligations: one per (function of the current MIR dump, clause of its specification); z3 decides every value comparison and path feasibility, '
             'cvc5 re-decides the same SMT-LIB text; non-trivial = obligation over a function whose body was symbolically executed')
 
@@ -127,11 +127,54 @@ def unit_part(rx_quick, rx_thorough=None):
             'jobs': 6, 'timeout_quick': 900, 'timeout_thorough': 2400, 'mem_gb': 20}
 
 
+# --- World / system-data families (association-list model of the resource map, real atomic_refcell) -------------
+WORLD_IGNORE = r'atomic_refcell|shred::World::(try_)?fetch|\{\}: \{e\}'
+
+
+def world_part(kind, pid):
+    """ok: no conflict in the history - any panic is a violation; conflict / mismatch: the library's own panic is
+    expected (ignored), the sentinel behind the call must be unreachable"""
+    d = {'engine': 'kani', 'family': 'world-' + kind, 'module': 'world', 'jobs': 10, 'timeout_quick': 420, 'timeout_thorough': 1200, 'mem_gb': 14, 'unlabelled_owner': pid}
+    if kind == 'ok':
+        if pid == 'C08':
+            d['select'] = sel('world', r'^world_ok_(static|clone|history4)$', r'^world_ok_(static|clone|history\d+)$')
+        else:
+            d['select'] = sel('world', r'^world_ok_(static|clone|dynamic_\w+|typed|drops)$')
+        d['native_sanity'] = True
+    elif kind == 'conflict':
+        d.update({'select': sel('world', r'^world_conflict_'), 'ignore_unlabelled': WORLD_IGNORE, 'expect_failed': True})
+    else:
+        d.update({'select': sel('world', r'^world_mismatch_'), 'ignore_unlabelled': r'wrong type ID|assert_same_type_id', 'expect_failed': True})
+    return d
+
+
+def data_part():
+    return {'engine': 'kani', 'family': 'data', 'module': 'data', 'unlabelled_owner': 'C06', 'native_sanity': True, 'jobs': 12, 'timeout_quick': 420, 'timeout_thorough': 1200, 'mem_gb': 14,
+            'select': sel('data', r'^data_(read_p111|write_p111|read_expect_p001|write_expect_p100|opt_read_p000|opt_read_p100|opt_write_p000|opt_write_p010|unit_p111|phantom_p111|tuple1_p001|tuple2_p110|tuple3_p011|tuple_same_read_p100|nested_p101|derive_named_p110|derive_tuple_p100|derive_tuple_p101|derive_nested_p110|derive_generic_p011|system_data_p101)$', r'^data_')}
+
+
+WORLD_FUNCS = ['World::{empty,insert,insert_by_id,remove,remove_by_id,has_value,has_value_raw,get_mut,get_mut_raw,fetch,fetch_mut,try_fetch,try_fetch_mut,try_fetch_by_id,try_fetch_mut_by_id,try_fetch_internal}',
+               'ResourceId::{new,new_with_dynamic_id,assert_same_type_id} + derived Eq', 'Fetch / FetchMut (deref, drop, clone)', 'atomic_refcell::AtomicRefCell (the real crate)']
+WORLD_BOUNDS = {'borrow histories (E1, C08)': 'EVERY sequence of 4 (quick) / 3, 4, 6, 8 (thorough) operations on one resource out of {shared fetch into slot 1 or 2, exclusive fetch, drop of each of the three guards} - the operation of each step is a solver variable; an operation the borrow model forbids is skipped (what happens then is the conflict family); after every step the real cell is probed and must be free / shared / exclusive as the model says',
+                'world histories (E1)': 'the listed scenarios: <= 3 resources (2 static types, 2 symbolic u64 dynamic ids), <= 6 API calls each; payloads, dynamic ids symbolic (all 2^64 values)',
+                'resource map': 'association-list contract model of ahash::AHashMap (get/insert/remove/contains_key; entry() not modelled - it panics)'}
+WORLD_ASSUME = ['the resource map is an association list with HashMap\'s contract (one slot per equal key, insert replaces, remove returns): hashbrown itself is not executed under Kani (it is in the native replay)',
+                'single thread (Kani); atomics are executed sequentially']
+
+
 COMMIT_FUNCS = ['StagesBuilder::insert (decision + add_stage/add_group + the five pushes)', 'smallvec/arrayvec push/extend (contract models)']
 COMMIT_BOUNDS = {'commit shapes': '0 stages | 1x1x1 | 1x2x1 | 2x1x1, barrier = number of stages (forces the NewStage target: a solver-chosen target makes the real insert index its tables symbolically - out of memory at 30 GB)',
                  'new system': '<= 2 reads, <= 2 writes (duplicates and read/write overlap allowed), symbolic time, 0/1 dependency', 'join-a-group / open-a-group paths of the commit': 'decided by E2 on the MIR of insert, all (stage, group) values'}
 RELABEL_BOUNDS = {'relabel shapes': '1x1x1 1x2x1 2x1x1 1x1x2, <= 2 reads and <= 2 writes per group, <= 3 reads / <= 3 writes for the new system', 'relabelling': 'any permutation of the 6 resource ids (2 static types x 3 dynamic ids), any order of the declared lists (reads reach insertion_target sorted and de-duplicated, as insert passes them)'}
 
+
+PROPS_C06['parts'] = [{'engine': 'mir'}, data_part()]
+PROPS_C06['functions'] = ['<T as SystemData>::{fetch,reads,writes} for Read, Write, ReadExpect, WriteExpect, Option<Read>, Option<Write>, (), PhantomData, tuples (1,2,3 members, nested), 4 derived structs (named, tuple, nested, generic with where-clause) - real derive macro output', 'World::{insert,try_fetch,try_fetch_mut,try_fetch_internal}', 'atomic_refcell::AtomicRefCell']
+PROPS_C06['bounds'] = dict(PROPS_C06['bounds'], **{'fetch harness (E1)': '17 system-data types x 2-3 concrete presence patterns of the resources A, B, C (37 instances; 20 in quick); payloads symbolic; after fetch the borrow state of every cell is observed (try_borrow / try_borrow_mut) and compared with reads()/writes(); after drop every cell is free',
+                                                  'resource map': 'association-list contract model of ahash::AHashMap'})
+PROPS_C06['assumptions'] = PROPS_C06['assumptions'] + WORLD_ASSUME
+PROPS_C06['outside'] = ['run-time borrow state for system-data types outside the E1 list (E2 covers their composition for all arities)', 'user-written SystemData impls', 'setup on a real World (DefaultProvider::setup goes through HashMap::entry, which the map model cannot provide)']
+PROPS_C06['explanation'] += '; E1: the property verbatim (borrow state after fetch = declared access, all released after drop) on the real World for 17 provided / derived types'
 
 PROPS = {
     'C01': prop('model_checking', [step_part(), commit_part(), exec_part(), mir_part()], STEP_FUNCS + EXEC_FUNCS, both(STEP_BOUNDS, EXEC_BOUNDS), STEP_ASSUME + EXEC_ASSUME, STEP_OUT + EXEC_OUT, RULE_STEP + ' | ' + RULE_EXEC),
@@ -140,20 +183,29 @@ PROPS = {
     'C04': prop('model_checking', [exec_part('C04'), commit_part('C04'), mir_part()], EXEC_FUNCS + ['MultiDispatcher::run', 'DispatcherBuilder::add_batch'], EXEC_BOUNDS, EXEC_ASSUME + MIR_ASSUME, EXEC_OUT + ['hundreds of systems as one concrete plan (covered through the commit induction)'], RULE_EXEC + ' | ' + MIR_RULE),
     'C05': prop('model_checking', [exec_part(), dict(step_part(), labels=['C01']), mir_part()], EXEC_FUNCS + STEP_FUNCS, EXEC_BOUNDS, EXEC_ASSUME, EXEC_OUT + ['that non-conflicting steps commute on the real World under real interleavings (reduced claim: order agreement of dispatch_par and dispatch_seq on every ordered pair)'], RULE_EXEC),
     'C06': PROPS_C06,
-    'C07': prop('other', [mir_part(), unit_part(r'^unit_fetchall_(s1g1l1_r2w2|s1g2l1_r1w1)', r'^unit_fetchall_')], ['DispatcherBuilder::add_batch', 'BatchAccessor::{new,reads,writes}', 'BatchControllerSystem::{create,run,accessor,running_time}', 'BatchUncheckedWorld::{fetch,setup}'], {'loop unrolling': 3, 'nesting': 'any depth: a nested batch is an ordinary system of the inner builder'}, MIR_ASSUME + ['fetch_all_reads/fetch_all_writes return every id of every group (E1 unit harness, thorough)', 'sort/dedup preserve membership (std contract)'], ['interleavings of outer systems with the batch (C01 applies to the batch as one system)'], MIR_RULE, 'E2 symbolic execution of the batch glue'),
+    'C07': prop('other', [mir_part(), unit_part(r'^unit_fetchall_(s1g1l1_r2w2|s1g2l1_r1w1)', r'^unit_fetchall_')], ['DispatcherBuilder::add_batch', 'BatchAccessor::{new,reads,writes}', 'BatchControllerSystem::{create,run,accessor,running_time}', 'BatchUncheckedWorld::{fetch,setup}'], {'loop unrolling': '3 (quick) / 5 (thorough)', 'nesting': 'any depth: a nested batch is an ordinary system of the inner builder'}, MIR_ASSUME + ['fetch_all_reads/fetch_all_writes return every id of every group (E1 unit harness, thorough)', 'sort/dedup preserve membership (std contract)'], ['interleavings of outer systems with the batch (C01 applies to the batch as one system)'], MIR_RULE, 'E2 symbolic execution of the batch glue'),
     'C10': prop('model_checking', [step_part(), exec_part(), mir_part()], STEP_FUNCS + ['SendDispatcher::max_threads', 'Stage::max_threads', 'insertion_target::{closure#0,#1,#2} (E2, any table size)'], both(STEP_BOUNDS, EXEC_BOUNDS), STEP_ASSUME + EXEC_ASSUME + MIR_ASSUME, STEP_OUT, RULE_STEP + ' | ' + RULE_EXEC + ' | ' + MIR_RULE),
     'C11': prop('model_checking', [exec_part(), mir_part()], EXEC_FUNCS + ['DispatcherBuilder::{build,create_thread_pool,add_batch}'], EXEC_BOUNDS, EXEC_ASSUME + MIR_ASSUME, ['that real rayon with enough idle workers actually overlaps the jobs (liveness of rayon\'s scheduler)', 'async dispatcher'], RULE_EXEC + ' | ' + MIR_RULE),
     'C12': prop('model_checking', [exec_part(), mir_part()], EXEC_FUNCS + ['DispatcherBuilder::add_thread_local', 'AsyncDispatcher::wait'], EXEC_BOUNDS, EXEC_ASSUME + MIR_ASSUME, ['Dispatcher is !Send (a compile-time fact)', 'async dispatcher beyond the shape of wait()'], RULE_EXEC + ' | ' + MIR_RULE),
     'C13': prop('model_checking', [exec_part(), mir_part()], EXEC_FUNCS + ['DefaultProvider::setup', 'PanicHandler::setup'], EXEC_BOUNDS, EXEC_ASSUME + MIR_ASSUME, ['"no existing resource modified" on a populated World (hashbrown) beyond Entry::or_insert_with being the only mutation', 'async dispatcher setup'], RULE_EXEC + ' | ' + MIR_RULE),
     'C18': prop('model_checking', [step_part('C18'), mir_part()], STEP_FUNCS + ['DispatcherBuilder::{add,next_id,add_barrier,add_thread_local}'], STEP_BOUNDS, STEP_ASSUME + MIR_ASSUME, STEP_OUT + ['names needing sanitising (only the printer looks at them)'], RULE_STEP + ' | ' + MIR_RULE),
-    'C08': prop('other', [mir_part()], ['World::{try_fetch,try_fetch_mut,try_fetch_by_id,try_fetch_mut_by_id,fetch,fetch_mut}', 'Fetch::clone', 'Entry::or_insert_with', 'MetaIter::next', 'MetaIterMut::next'], {'loop unrolling': 3},
-                MIR_ASSUME + ['atomic_refcell implements shared-xor-exclusive and releases a borrow when its guard is dropped; borrow()/borrow_mut() panic on conflict (its documented contract)', 'std HashMap::get returns the cell stored under the key'],
-                ['the borrow state of a populated World over multi-step or multi-threaded histories (hashbrown cannot be executed symbolically here)', 'canary data races'], MIR_RULE, 'E2: every shared-reference access path of World, path by path'),
-    'C09': prop('other', [mir_part()], ['ResourceId::assert_same_type_id', 'World::{insert,insert_by_id,remove,remove_by_id,entry,has_value,has_value_raw,get_mut,exec}'], {},
-                MIR_ASSUME + ['std HashMap laws (insert replaces, remove returns, entry-or-insert never overwrites, slots are independent)'], ['multi-step histories on a populated World', 'exactly-once drop (ownership)'], MIR_RULE, 'E2: type check dominance and id provenance of every id-taking entry point'),
-    'C16': prop('other', [mir_part(), parseq_part('ok'), parseq_part('conflict')], ['Seq::{run,setup,reads,writes,with,new}', 'Par::{run,setup,reads,writes,with,new} + run closures', 'leaf RunWithPool impl', 'ParSeq::{dispatch,setup}', 'Par::with in a debug-assertions build'], {'tree shapes': 'all (structural induction over head/tail)', 'loop unrolling': 3},
+    'C08': prop('other', [mir_part(), world_part('ok', 'C08'), world_part('conflict', 'C08')], ['World::{try_fetch,try_fetch_mut,try_fetch_by_id,try_fetch_mut_by_id,fetch,fetch_mut}', 'Fetch::clone', 'Entry::or_insert_with', 'MetaIter::next', 'MetaIterMut::next'] + WORLD_FUNCS, dict({'loop unrolling': '3 (quick) / 5 (thorough)'}, **WORLD_BOUNDS),
+                MIR_ASSUME + ['E2 only: atomic_refcell implements shared-xor-exclusive and releases a borrow when its guard is dropped (E1 executes the real crate)', 'std HashMap::get returns the cell stored under the key'] + WORLD_ASSUME,
+                ['histories beyond the listed scenarios', 'many threads (Kani is sequential)', 'unwinding through a guard', 'meta-table iteration on a populated World (register goes through HashMap::entry)'], MIR_RULE + ' | E1: every assertion labelled C08 in the world_ok_* / world_conflict_* harnesses is a CBMC check over all payload / dynamic-id values; conflict harnesses: the library\'s own panic is expected, the sentinel behind the conflicting fetch must be unreachable',
+                'E2: every shared-reference access path of World, path by path; E1: shared+shared, other resource, release-then-exclusive, clone, and every kind of conflict (static and by-id API) on the real World and the real atomic_refcell'),
+    'C09': prop('other', [mir_part(), world_part('ok', 'C09'), world_part('mismatch', 'C09')], ['ResourceId::assert_same_type_id', 'World::{insert,insert_by_id,remove,remove_by_id,entry,has_value,has_value_raw,get_mut,exec}'] + WORLD_FUNCS, dict(WORLD_BOUNDS),
+                MIR_ASSUME + ['E2 only: std HashMap laws (insert replaces, remove returns, entry-or-insert never overwrites, slots are independent)'] + WORLD_ASSUME, ['histories beyond the listed scenarios', 'entry-or-insert on a real map (HashMap::entry is not modelled; E2 specifies the forwarding)', 'a mismatching call "leaves the world unchanged" (Kani ends the path at the panic; E2: the check dominates every access)'],
+                MIR_RULE + ' | E1: every assertion labelled C09 in the world_ok_* / world_mismatch_* harnesses is a CBMC check over all payload / dynamic-id values (both u64 dynamic ids symbolic, d1 != d2)',
+                'E2: type check dominance and id provenance of every id-taking entry point, ResourceId fields / constructors / eq / hash; E1: presence, independence of dynamic slots, replace, remove, get_mut, exactly-once drop, rejection of mismatching ids on the real World'),
+    'C15': prop('other', [mir_part()], ['AsyncDispatcher::{dispatch + spawned job, wait, wait_without_tl, world, world_mut, res, mut_res, running, setup}', 'Data::{inner, inner_noblock + closure, sender}', 'DispatcherBuilder::build_async', 'new_async'],
+                {'loop unrolling': '3 (quick) / 5 (thorough)', 'plans': 'any (the bodies are parametric in the stages and the thread-local list)'},
+                MIR_ASSUME + ['std::sync::mpsc: recv() returns exactly the value the job sent, after it was sent; try_recv() never blocks and answers Empty until then (documented contract) - this is where the happens-before between the background job and the caller comes from',
+                              'ThreadPool::spawn runs the closure exactly once (rayon contract)', 'Stage::execute returns after every system of the stage ran (C04)'],
+                ['real interleavings of the background job and the caller: the claim is the hand-over protocol, every step of which is a sequential body, under the channel contract above', 'liveness (that the job is ever scheduled)', 'a panic inside the job (C14)'], MIR_RULE,
+                'REDUCED claim, E2: the state (world + stages) is either here or owned by exactly one background job; the job executes every stage once, in order, and only then sends the state back; every accessor (wait, wait_without_tl, world, world_mut, res, mut_res, setup) and dispatch itself first block on the state coming back; running() only polls and answers false exactly when the state is (or has just arrived) here; thread-local systems run only inside wait, on the caller, after the state is back'),
+    'C16': prop('other', [mir_part(), parseq_part('ok'), parseq_part('conflict')], ['Seq::{run,setup,reads,writes,with,new}', 'Par::{run,setup,reads,writes,with,new} + run closures', 'leaf RunWithPool impl', 'ParSeq::{dispatch,setup}', 'Par::with in a debug-assertions build'], {'tree shapes': 'all (structural induction over head/tail)', 'loop unrolling': '3 (quick) / 5 (thorough)'},
                 MIR_ASSUME + ['rayon::join / ThreadPool::join run both closures exactly once and return after both (contract)'], ['real overlap of par children', 'release builds do not check conflicts (cfg!(debug_assertions))'], MIR_RULE, 'E2: Par/Seq node bodies for all H, T'),
-    'C17': prop('other', [mir_part()], ['attach_vtable', 'MetaTable::{register,get,get_mut,iter,iter_mut} + closures', 'MetaIter::next', 'MetaIterMut::next'], {'loop unrolling': 3, 'feature': 'non-nightly'},
+    'C17': prop('other', [mir_part()], ['attach_vtable', 'MetaTable::{register,get,get_mut,iter,iter_mut} + closures', 'MetaIter::next', 'MetaIterMut::next'], {'loop unrolling': '3 (quick) / 5 (thorough)', 'feature': 'non-nightly'},
                 MIR_ASSUME + ['std HashMap::entry/len/get contracts', 'calling through the attached vtable is the compiler\'s business'], ['hashbrown', 'the nightly feature variant', 'machine-level vtable identity'], MIR_RULE, 'E2: meta table bodies'),
     'C19': prop('model_checking', [relabel_part(), commit_part(), mir_part()], STEP_FUNCS + COMMIT_FUNCS, both(RELABEL_BOUNDS, COMMIT_BOUNDS), STEP_ASSUME + MIR_ASSUME,
                 ['cross-process / cross-compiler comparison (TypeId order is only used by sort, shown not to influence decisions)'], RULE_STEP + ' | ' + MIR_RULE),
